@@ -139,6 +139,19 @@ def M_opt_map_or(it, ctx, args, st):
             yield from it.call_closure(args[2], [p.fields[0]], s2, ctx.fr)
 
 
+def M_map_or_else(it, ctx, args, st):
+    """Option::map_or_else(default, f) / Result::map_or_else(default, f): f(payload) for Some / Ok, default() (default(e) for Err) otherwise"""
+    v = args[0]
+    for s2, i, p in it.enum_cases(v, st):
+        name = v.decl.variants[i][0]
+        if name in ('Some', 'Ok'):
+            yield from it.call_closure(args[2], [p.fields[0]], s2, ctx.fr)
+        elif name == 'Err':
+            yield from it.call_closure(args[1], [p.fields[0]], s2, ctx.fr)
+        else:
+            yield from it.call_closure(args[1], [], s2, ctx.fr)
+
+
 def M_opt_unwrap(it, ctx, args, st):
     for s2, i, p in it.enum_cases(args[0], st):
         name = args[0].decl.variants[i][0]
@@ -2051,6 +2064,22 @@ def M_ref_partial_eq(it, ctx, args, st):
     yield from it.call_trait(ctx.fr, A[2], 'std::cmp::PartialEq', ctx.callee.method, [], [a, b], st, targs=[B[2]])
 
 
+def M_bool_then_some(it, ctx, args, st):
+    """bool::then_some(v): Some(v) if self else None"""
+    for s2, t in fork_bool(it, st, args[0]):
+        yield s2, (it.some(args[1]) if t else it.none)
+
+
+def M_bool_then(it, ctx, args, st):
+    """bool::then(f): Some(f()) if self else None"""
+    for s2, t in fork_bool(it, st, args[0]):
+        if not t:
+            yield s2, it.none
+            continue
+        for s3, r in it.call_closure(args[1], [], s2, ctx.fr):
+            yield s3, (r if is_abnormal(r) else it.some(r))
+
+
 def M_from_iter(it, ctx, args, st):
     """<C as FromIterator<T>>::from_iter(iter)  ==  iter.into_iter().collect::<C>()"""
     ctx2 = type('C', (), {'gargs': [ctx.self_ty], 'fr': ctx.fr, 'callee': ctx.callee, 'self_ty': ctx.self_ty})()
@@ -2369,7 +2398,7 @@ ITER = r'<.* as ' + P + r'iter::Iterator>::'
 MODELS = [
     (OPT + r'map::<.*>', M_opt_map), (OPT + r'and_then::<.*>', M_opt_and_then), (OPT + r'or_else::<.*>', M_opt_or_else),
     (OPT + r'filter::<.*>', M_opt_filter), (OPT + r'ok_or_else::<.*>', M_opt_ok_or_else), (OPT + r'ok_or::<.*>', M_opt_ok_or),
-    (OPT + r'unwrap_or', M_opt_unwrap_or), (OPT + r'unwrap_or_default', M_opt_unwrap_or_default), (OPT + r'unwrap_or_else::<.*>', M_opt_unwrap_or_else), (OPT + r'map_or::<.*>', M_opt_map_or),
+    (OPT + r'unwrap_or', M_opt_unwrap_or), (OPT + r'unwrap_or_default', M_opt_unwrap_or_default), (OPT + r'unwrap_or_else::<.*>', M_opt_unwrap_or_else), (OPT + r'map_or::<.*>', M_opt_map_or), (OPT + r'map_or_else::<.*>', M_map_or_else), (RES + r'map_or_else::<.*>', M_map_or_else),
     (OPT + r'(unwrap|expect)', M_opt_unwrap), (RES + r'(unwrap|expect)', M_opt_unwrap),
     (RES + r'(unwrap_err|expect_err)', M_res_unwrap_err), (OPT + r'(is_some_and|is_none_or)::<.*>', M_is_some_and), (RES + r'(is_ok_and|is_err_and)::<.*>', M_is_some_and),
     (P + r'ops::RangeInclusive::<.*>::new', M_range_inclusive_new), (P + r'ops::(?:range::)?Range(?:Inclusive)?::<.*>::contains::<.*>', M_range_contains),
@@ -2422,6 +2451,7 @@ MODELS = [
     (ITER + r'filter_map::<.*>', M_adaptor('filter_map')), (ITER + r'flat_map::<.*>', M_adaptor('flat_map')),
     (ITER + r'enumerate', M_adaptor('enumerate')), (ITER + r'rev', M_iter_rev),
     (r'<.* as ' + P + r'iter::FromIterator<.*>>::from_iter::<.*>', M_from_iter),
+    (P + r'bool::<impl bool>::then_some::<.*>', M_bool_then_some), (P + r'bool::<impl bool>::then::<.*>', M_bool_then),
     (ITER + r'collect::<.*>', M_collect), (ITER + r'count', M_count), (ITER + r'all::<.*>', M_all), (ITER + r'any::<.*>', M_any),
     (ITER + r'find::<.*>', M_find), (ITER + r'position::<.*>', M_position),
     (P + r'char::methods::<impl char>::encode_utf8', M_char_encode_utf8), (P + r'char::methods::<impl char>::len_utf8', M_char_len_utf8),
